@@ -38,10 +38,12 @@ def pattern_entries(prog, rep, entries, rule="PAT", not_charged=(), allow_raw=()
         from .. import signs as _signs
         P.pairs = _signs.ALL_PAIRS
     objs = {}
+    approx = set()
     for q, param in entries:
         f = need(prog, q)
         before = set(P.violations)
         unk0 = len(P.unknown)
+        col0 = len(PT.COLLAPSED)
         try:
             ret, obj = PT.run_entry(P, f, param)
         except Inconclusive as e:
@@ -57,7 +59,15 @@ def pattern_entries(prog, rep, entries, rule="PAT", not_charged=(), allow_raw=()
         if len(P.unknown) > unk0:
             for (qq, line, msg) in P.unknown[unk0:]:
                 rep.unk(rule + ".entry", {"file": f.module.relpath, "line": line, "function": qq, "construct": msg}, msg)
-        if bad_ret and lvl == PT.RAW:
+        collapsed = PT.COLLAPSED[col0:]
+        if collapsed:
+            approx.update(new)
+        if bad_ret and collapsed:
+            # the level of the result went through an object that holds the raw matrix next to derived data (a working-state class): the domain joins
+            # an object's attributes when the object is used as a whole, so "raw" is an over-approximation here, not a finding
+            rep.unk(rule + ".result", fwhere(f), "the result of %s passes through an object (%s) that also holds the raw matrix; the zero-pattern domain does not keep "
+                    "the attributes of an object apart when it is iterated / compared as a whole" % (f.name, ", ".join(sorted({str(c_) for c_ in collapsed}))))
+        elif bad_ret and lvl == PT.RAW:
             rep.bad(rule + ".result", fwhere(f), "result of %s carries raw weights (must be determined by the zero pattern)" % f.name)
         elif bad_ret:
             prov = ["%s:%s `%s`" % (x[0].rsplit(".", 1)[-1], x[1], x[2][:60]) for x in sorted(PT.prov_of(ret), key=str)[:2]] if ret is not None else []
@@ -68,6 +78,10 @@ def pattern_entries(prog, rep, entries, rule="PAT", not_charged=(), allow_raw=()
                    "(result level %s)" % (f.name, param, PT.NAMES[lvl]))
     for k, v in P.violations.items():
         if v["function"] in not_charged:
+            continue
+        if k in approx:
+            rep.unk(rule + ".value-sensitive", {"file": v["file"], "line": v["line"], "function": v["function"], "construct": v["construct"]},
+                    "a decision may depend on raw weights, but the value went through an object whose attributes the zero-pattern domain joins: not decided (%s)" % "; ".join(v["sinks"][:2]))
             continue
         rep.bad(rule + ".value-sensitive",
                 {"file": v["file"], "line": v["line"], "function": v["function"], "construct": v["construct"]},
@@ -720,6 +734,12 @@ def no_foreign_writes(rep, prog, qname, rule="OWN"):
                 l = sorted(owned, key=str)[0]
                 what = {"P": "parameter", "PE": "an element of parameter", "S": "self attribute", "SE": "an element of self attribute", "D": "the default of",
                         "G": "module-level object", "U": "the array returned by the user's callable"}[OW.strip_maybe(l)[0]]
+                if all(OW.strip_maybe(l_)[0] == "G" for l_ in owned):
+                    # state kept at module level (a cache, a registry): it is written, which makes results *able* to depend on earlier calls; whether they
+                    # do (a memo table with a sound key does not) is not something the ownership domain decides
+                    rep.unk(rule + ".writes", {"file": w.site[3], "line": w.site[1], "function": w.site[0], "construct": w.site[2]},
+                            "%s writes module-level object `%s`: hidden state between calls, not decided whether results can depend on it" % (w.how, l[1]))
+                    continue
                 rep.bad(rule + ".writes", {"file": w.site[3], "line": w.site[1], "function": w.site[0], "construct": w.site[2]},
                         "%s %s %s `%s`" % (w.how, "may write" if l[0].endswith("?") else "writes", what, l[1]))
     if not bad:
